@@ -2,4 +2,4 @@ From Coq Require Import ZArith.
 From DV Require Import DeltaGraph.
 Require Extraction.
 Require Import ExtrOcamlBasic.
-Extraction "model.ml" resolve Z.succ.
+Extraction "model.ml" resolve read_entry Z.succ.
